@@ -406,7 +406,8 @@ class Gen:
                 "valid": [rnd.random() >= pm for _ in range(n)], "form": rnd.choice(["nan", "tuple"])}
 
     def fmt(self):
-        return self.rnd.choice([("nan",), ("nan",), ("tuple", 0), ("tuple", -1), ("tuple", 7.5), ("plain", 0)])
+        # (sentinels that are themselves plausible results - 1, 2 - must not be mistaken for "missing")
+        return self.rnd.choice([("nan",), ("nan",), ("tuple", 0), ("tuple", -1), ("tuple", 7.5), ("tuple", 1), ("tuple", 2), ("plain", 0)])
 
     def shared_case(self, func=None, nd=None, maxrows=10, extra=None, pad=True):
         rnd = self.rnd
